@@ -241,7 +241,9 @@ class Runner:
           c = c.sym_parent
           steps += 1
       self_ref = (type(o) is pg.Ref and self.is_node(o.value) and self.same_root(cx, o.value))
-      if id(o) in used or ((diverges or self_ref) and not cx['unsafe']):
+      # (a spec-bound list is not offered by itself: an object field that receives it rewrites
+      # the offered list's allow_partial before the copy is made — F121, outside the model)
+      if id(o) in used or self.kind(o) == 'tl' or ((diverges or self_ref) and not cx['unsafe']):
         return ('atom', None)
       if o.sym_parent is None:
         # a parentless node will be moved: its whole subtree is then out of reach for this call
